@@ -405,7 +405,7 @@ def sparse_strategy():
 
 
 def run_shard(ctx):
-    n = 250 if ctx.tier == "quick" else 4000
+    n = 250 if ctx.tier == "quick" else 12000
 
     def body_r(case):
         cl = set()
